@@ -153,8 +153,8 @@ __CPROVER_assigns();
 bool runcrypt__execute_decrypt(runcrypt *this, size_t fsize)
 __CPROVER_requires(WV_RC_PTRS(this) && __CPROVER_is_fresh(this->out, sizeof(wv_FILE)) && WV_RC_CONS(this) && WV_GHOST_IN && WV_FRESH_STATE && wv_gi < 320 && !buffergroup__mtx.held)
 __CPROVER_requires(this->out->open && this->out->pos == this->out->len && this->out->len < (1ull << 50) && wv_wcount < (1ull << 59) && this->out->nbytes < (1ull << 59) &&
-                   this->fin->len < (1ull << 50) && wv_pg < 16 && wv_gk < 16)
-__CPROVER_assigns(WV_VERIFY_STATE(this), this->fin->open, WV_FILE_WSTATE(this->out), this->aesfactory.iv, WV_ARR(this->crym.threads), wv_c, wv_b, wv_steps, wv_pl,
+                   this->fin->len < (1ull << 50) && wv_pg < 16 && wv_gk < 16 && !this->crym.threads[wv_gk].started)
+__CPROVER_assigns(WV_VERIFY_STATE(this), this->fin->open, WV_FILE_WSTATE(this->out), this->aesfactory.iv, WV_ARR(this->crym.threads), wv_c, wv_b, wv_steps, wv_pl, wv_worker_mask,
                   buffergroup__instance, buffergroup__mtx, bufferctrl__live_num)
 __CPROVER_ensures(wv_magic_ok == (this->fin->len >= 8 && WV_FIN_MAGIC(this)))
 __CPROVER_ensures((wv_magic_ok && this->fin->len >= 10) ==> (this->header.ctype == WV_FINB(this, 8) && this->header.htype == WV_FINB(this, 9)))
@@ -178,8 +178,8 @@ __CPROVER_requires(WV_RC_PTRS(this) && __CPROVER_is_fresh(this->out, sizeof(wv_F
 __CPROVER_requires(WV_FILE_OK(this->fin) && !this->fin->eof && this->fin->len < (1ull << 50) && this->out->open && this->out->pos == 0 && this->out->len == 0 && this->out->nwrites == 0 && this->out->nbytes == 0)
 __CPROVER_requires((u8_t)this->settings.ctype <= 4 && (u8_t)this->settings.htype <= 2 && this->header.ctype == (u8_t)this->settings.ctype && this->header.htype == (u8_t)this->settings.htype)
 __CPROVER_requires(wv_slen < (1ull << 31) && __CPROVER_is_fresh(r_buf, wv_slen + 1) && r_buf[wv_slen] == 0)
-__CPROVER_requires(wv_g < 64 && wv_gr < 16 && wv_hl_n < (1ull << 40) && wv_wcount == 0 && wv_pg < 16 && wv_gk < 16)
-__CPROVER_assigns(this->fin->pos, this->fin->eof, this->fin->open, WV_FILE_WSTATE(this->out), this->aesfactory.iv, WV_ARR(this->crym.threads), wv_c, wv_b, wv_steps, wv_pl,
+__CPROVER_requires(wv_g < 64 && wv_gr < 16 && wv_hl_n < (1ull << 40) && wv_wcount == 0 && wv_pg < 16 && wv_gk < 16 && !this->crym.threads[wv_gk].started)
+__CPROVER_assigns(this->fin->pos, this->fin->eof, this->fin->open, WV_FILE_WSTATE(this->out), this->aesfactory.iv, WV_ARR(this->crym.threads), wv_c, wv_b, wv_steps, wv_pl, wv_worker_mask,
                   this->hmachandle.length, this->hmachandle.hmac_res, this->hmachandle.buf, WV_HMAC_GHOSTS, wv_tagv,
                   buffergroup__instance, buffergroup__mtx, bufferctrl__live_num)
 __CPROVER_ensures(__CPROVER_return_value)
